@@ -32,7 +32,10 @@ ASSUMPTIONS = [
     "lists with non-integer items given to n_bytes and STRINGI items naming other classes are outside the model (model_gap)",
     "EPATH / CIPSegment encoders are property C09's; PCCC_STRING's own layout (84-byte ST element) is not used as a width by the short-read oracle",
     "BufferEmptyError 'where a value should start' is read as: the stream is at the end of the buffer when it is raised "
-    "(a string whose length prefix is present but whose characters are all missing therefore may raise it)",
+    "(a string whose length prefix is present but whose characters are all missing therefore may raise it; consequence, observed and NOT "
+    "reported: an unbounded array silently drops a trailing element truncated exactly at a component boundary, e.g. "
+    "Array(None, Struct(DINT, DINT)).decode(4 bytes) == [] — under the stricter reading 'only at the start of the top-level value' "
+    "that is a further finding)",
     "BOOL accepts every Python value by truthiness (its _encode is annotated Any): no value is outside BOOL's domain",
     "a hang is observed as: no result within 0.5 s of CPU-bound work in a forked child (RLIMIT_AS 3 GiB)",
     "STRING2 (F16, property C06) announces characters but reads bytes: it is excluded from the short-read and whole-elements oracles",
@@ -499,10 +502,14 @@ def oracle_decode(R, c, im):
     if c[0] == "decl":
         # T.decode(stream, length): the array behaves as Array(length, E) for a positive int
         ln = c[3]
-        if isinstance(ln, bool) or not isinstance(ln, int) or ln < 0:
-            td_eff = None
+        if ln is None or ln is False or ln == 0:
+            td_eff = td                                   # `length or cls.length`
+        elif ln is True:
+            td_eff = ("arr", 1, td[-1])                   # range(True)
+        elif isinstance(ln, int) and ln > 0:
+            td_eff = ("arr", ln, td[-1])
         else:
-            td_eff = ("arr", ln, td[-1]) if ln else td
+            td_eff = None
     else:
         td_eff = td
     if im[0] == "noconstruct":
@@ -518,7 +525,7 @@ def oracle_decode(R, c, im):
         return
     if im[0] == "empty":
         if im[1] != len(data) and (td_eff is None or stag_layouts_ok(td_eff)):
-            z = zero_length_read_class(td_eff) if td_eff else None
+            z = zero_length_read_class(td_eff or td)
             cls = f"dec:buffer-empty-with-bytes-remaining:{z or top}"
             fail(R, "BufferEmptyError although bytes remain", case_json(c), f"BufferEmptyError at offset {im[1]} of {len(data)}",
                    "BufferEmptyError only at the end of the buffer, DataError otherwise", cls)
@@ -547,7 +554,7 @@ def run_stream(R, mp, cases, stream):
         return out
     for c in cases:
         R.count("c08_stream", stream)
-    res = cc.corr(R, mp, cases, stream=stream, budget=BUDGET)
+    res = cc.corr(R, mp, cases, stream=stream, budget=BUDGET, impl=run_impl_retry(R, cases))
     for c, mo, im in res:
         R.count("impl_outcome:" + c[0], cc.outcome_class(im))
         if c[0] in ("enc", "enca"):
@@ -556,6 +563,18 @@ def run_stream(R, mp, cases, stream):
             oracle_decode(R, c, im)
         out.append((c, mo, im))
     return out
+
+
+def run_impl_retry(R, cases):
+    """cc.run_impl; a case on which the forked child died is run once more, alone, in a fresh child
+    (a death that does not repeat is the harness's, e.g. the address-space limit hit by a child
+    forked from a large parent, not the codec's)"""
+    impls = cc.run_impl(cases, BUDGET)
+    for i, im in enumerate(impls):
+        if im == ("crash",):
+            R.count("impl_child_died", "retried")
+            impls[i] = cc.run_impl([cases[i]], BUDGET)[0]
+    return impls
 
 
 def sendable(td, v):
@@ -749,7 +768,7 @@ def exact_stream(R, mp, n_types, rng):
         expect.append((len(vs), vs))
     for c in cases:
         R.count("c08_stream", "arrall-exact")
-    res = cc.corr(R, mp, cases, stream="arrall-exact", budget=BUDGET)
+    res = cc.corr(R, mp, cases, stream="arrall-exact", budget=BUDGET, impl=run_impl_retry(R, cases))
     for (c, mo, im), (k, vs) in zip(res, expect):
         R.evaluations += 1
         R.count("exact_elements", k)
@@ -799,7 +818,7 @@ def run(R, escalate=False):
 
         # ---- random type terms: out-of-domain values, documented values, truncations, random bytes
         n_types = 2500 if thorough else 330
-        rounds = 8 if thorough else 1
+        rounds = 6 if thorough else 1
         for _ in range(rounds):
             tds = []
             while len(tds) < n_types:
